@@ -226,6 +226,16 @@ func (d *dialer) peer(c net.Conn, cid int) {
 			io.Copy(io.Discard, br)
 			d.log.add("peer-close", cid, id, plan)
 			return
+		case "bigmidbody": // 9000 of 20000 body bytes, then the peer closes
+			big := body + ";" + strings.Repeat("p", 9000-len(body)-1)
+			fmt.Fprintf(c, "HTTP/1.1 200 OK\r\nContent-Length: 20000\r\n\r\n%s", big)
+			d.log.add("peer-close", cid, id, plan)
+			return
+		case "okclosespelled": // the close option in another spelling / inside a list (options are case-insensitive tokens)
+			spelling := []string{"Close", "CLOSE", "close, TE", "TE, close", "keep-alive, Close"}[len(id)%5]
+			send(fmt.Sprintf("HTTP/1.1 200 OK\r\nConnection: %s\r\nContent-Length: %d\r\n\r\n%s", spelling, len(body), body))
+			d.log.add("peer-close", cid, id, plan)
+			return
 		case "okclose":
 			send(fmt.Sprintf("HTTP/1.1 200 OK\r\nConnection: close\r\nContent-Length: %d\r\n\r\n%s", len(body), body))
 			d.log.add("peer-close", cid, id, plan)
@@ -286,7 +296,7 @@ func installYield() {
 
 // ---- one run ----------------------------------------------------------------------
 
-var plans = []string{"ok", "ok", "ok", "ok", "bigok", "bigstall", "okchunked", "okclose", "closebefore", "midheader", "midbody", "stall", "okthenclose"}
+var plans = []string{"ok", "ok", "ok", "ok", "bigok", "bigstall", "bigmidbody", "okclosespelled", "okchunked", "okclose", "closebefore", "midheader", "midbody", "stall", "okthenclose"}
 
 type doRec struct {
 	reqTimeout       time.Duration
@@ -543,7 +553,7 @@ func oneRun(w *mon.W, c *mon.Case) {
 					fail("matching", "Do(%s, plan %s) succeeded with the response body %q, which answers another request", rec.id, rec.plan, rec.body)
 					return
 				}
-				if rec.plan != "ok" && rec.plan != "bigok" && rec.plan != "okchunked" && rec.plan != "okclose" && rec.plan != "okthenclose" {
+				if rec.plan != "ok" && rec.plan != "bigok" && rec.plan != "okchunked" && rec.plan != "okclose" && rec.plan != "okclosespelled" && rec.plan != "okthenclose" {
 					fail("matching", "Do(%s) succeeded although the peer's plan was %s", rec.id, rec.plan)
 					return
 				}
